@@ -23,6 +23,7 @@ INVS = ["OwnInputLoads", "LoaderDumperAgree", "OmitDefaultRoundTrip", "PathsDisj
 # ---- names (character level: outside the model) --------------------------------------------------------
 BENIGN = {"k1": "k1", "k2": "k2", "n": "nest", "u1": "unk1", "u2": "unk2",
           "a": "a", "b": "b", "c": "c", "d": "d", "rest": "rest", "p": "p"}
+REVERSED_NAMES = {"a": "zed", "b": "mid", "c": "alpha", "d": "x", "rest": "a0"}
 STYLES = {"upper": ("UPPER_SNAKE", "_", str.upper, str.upper), "camel": ("CAMEL", "", str.lower, str.title)}
 
 
@@ -153,7 +154,9 @@ def render_spec(spec: dict, names: Names, rng: random.Random):
     return tuple(path) if rng.random() < 0.5 else list(path)
 
 
-TYPE_PRED_ALLOWED = {"on": True}     # c06 switches bare type predicates off for its TypedDict run (known finding of C17)
+# c01 / c06 switch off, for their runs on other model kinds, the two spellings whose TypedDict behaviour is a recorded finding of C17
+# (bare type predicates on Required[...] keys; field names whose alphabetical order differs from their order of definition)
+TYPE_PRED_ALLOWED = {"on": True}
 TYPE_PRED_USED: list = []      # set when a recipe selects fields by a bare type predicate (int / str)
 
 
@@ -427,6 +430,8 @@ def run_program(case: dict, seed: int, names: Names, out: dict, kind=None) -> No
             sig["kind"] = kind.name
             if TYPE_PRED_USED or (cat == "C01" and in_used):
                 sig["type_predicate"] = True
+            if getattr(names, "reversed_names", False) and feats["aslist"]:
+                sig["definition_order_not_alphabetical"] = True
         if getattr(names, "table_index", None) is not None:
             sig["names"] = names.table_index
         if extra_sig:
@@ -744,6 +749,16 @@ def _worker(items) -> dict:
                         from .kinds import BY_NAME
                         from .kinds import VARIANT_KINDS
                         hv = int(stable_hash([case["shape"], case["ovs"]]), 16) + seed
+                        if not tables and (hv // 3) % 2 and TYPE_PRED_ALLOWED["on"]:
+                            # field names whose alphabetical order is the reverse of their order of definition
+                            ds = names.dstyle
+                            names = Names(REVERSED_NAMES)
+                            names.dstyle = ds
+                            names.reversed_names = True
+                        elif not tables:
+                            ds = names.dstyle
+                            names = Names()
+                            names.dstyle = ds
                         for kn in kinds:
                             if not every_variant and any(v.name == kn and i % 3 != hv % 3 for i, v in enumerate(VARIANT_KINDS)):
                                 continue          # a variant spelling: met by one program in three
